@@ -590,6 +590,7 @@ pub fn run_child(ctx: &mut Ctx) {
     let threads = rayon_threads();
     if let Some(case) = ctx.replay_only.clone() {
         let sub: u64 = case.get(2).and_then(|s| s.parse().ok()).unwrap_or(0);
+        if super::c03_trunc::replay(ctx, &case) { return; }
         match case.first().map(|s| s.as_str()) {
             Some("writer") => writer_case(ctx, threads, sub, false),
             Some("writer-fail") => writer_fail_case(ctx, threads, sub, case.get(3).and_then(|s| s.parse().ok()).unwrap_or(0)),
@@ -604,6 +605,7 @@ pub fn run_child(ctx: &mut Ctx) {
     for it in 0..ctx.n(6, 120) {
         plain_writer_case(ctx, threads, ctx.seed.wrapping_mul(71_711).wrapping_add(it).wrapping_add(threads as u64 * 1_000_003));
     }
+    super::c03_trunc::run(ctx);
     ctx.bump(&format!("pool_size_{threads}"));
 }
 
